@@ -142,6 +142,35 @@ macro_rules! parts {
     }};
 }
 
+fn core_part(tier: Tier) -> Part<'static, Sys> {
+    Part {
+        name: "save-alt-resize-core-deep",
+        sys: &Sys,
+        cfgs: match tier {
+            Tier::Quick => cfgs(&[(3, 3)], &[None]),
+            Tier::Thorough => cfgs(&[(3, 3), (2, 2), (4, 2)], &[None, Some(0)]),
+        },
+        alphabet: &crate::alphabets::a_core_deep,
+        depth: tier.pick(10, 13),
+        seconds: tier.pick(20.0, 1800.0),
+        validated: false,
+        nontrivial: None,
+    }
+}
+
+fn tabs_part(tier: Tier) -> Part<'static, Sys> {
+    Part {
+        name: "tab-moves-across-width-changes",
+        sys: &Sys,
+        cfgs: cfgs(&[(7, 1), (20, 1)], &[Some(0)]),
+        alphabet: &crate::alphabets::a_tab_widths,
+        depth: tier.pick(5, 6),
+        seconds: tier.pick(15.0, 1800.0),
+        validated: false,
+        nontrivial: None,
+    }
+}
+
 /// "resize to any size": geometries at and beyond the 16-bit boundary, by resize() and by
 /// the builder, from a screen with content; all invariants after every call.
 fn extreme_sizes(ctx: &Ctx, rep: &mut Report) {
@@ -200,6 +229,8 @@ pub fn run(ctx: &Ctx) -> Report {
     let (main, deep) = parts!(ctx.tier);
     run_part(ctx, &mut rep, &main);
     run_part(ctx, &mut rep, &deep);
+    run_part(ctx, &mut rep, &core_part(ctx.tier));
+    run_part(ctx, &mut rep, &tabs_part(ctx.tier));
     extreme_sizes(ctx, &mut rep);
     rep.rule = "BFS over op histories from power-on, dedup on the Debug fingerprint of the whole Vt; every transition is one public call (feed_str with drained/dropped Changes, feed per char, resize) after which all C02 invariants are evaluated; distinct = distinct implementation states; extreme-sizes: geometries at and beyond the 16-bit boundary through resize() and the builder, invariants after every call".into();
     rep.assumptions = vec![
@@ -221,6 +252,8 @@ pub fn replay(ctx: &Ctx, v: &Value) -> bool {
     match v["part"].as_str().unwrap_or("") {
         "all-functions" => replay_part(ctx, &main, v),
         "alt-resize-deep" => replay_part(ctx, &deep, v),
+        "save-alt-resize-core-deep" => replay_part(ctx, &core_part(tier), v),
+        "tab-moves-across-width-changes" => replay_part(ctx, &tabs_part(tier), v),
         p => {
             println!("unknown part {}", p);
             false
